@@ -181,7 +181,7 @@ def run_tests(base):
 
 
 def run_check(prop, src, cases=None, tier="quick"):
-    env = dict(os.environ, RP2SIM_NO_MINIMIZE="1", PYTHONHASHSEED="0")
+    env = dict(os.environ, RP2SIM_NO_MINIMIZE="1", PYTHONHASHSEED="0", RP2SIM_REPLAY_DIR=os.path.join(runner.scratch_base(), "replays-of-mutated-trees"))
     env.pop("RP2SIM_SESSION", None)
     cmd = [sys.executable, "-m", "rp2sim", "check", prop, "--tier", tier, "--src", src, "--no-evidence"]
     if cases:
